@@ -442,6 +442,116 @@ type interp struct {
 	elemVec              bitdom.Vec
 	// results
 	byteIdx map[int]bool
+	depth   int // nesting of pure helper calls
+}
+
+// isPureHelperName: id names a package function of the pure one-return form (see pureStep).
+func (pr *prover) isPureHelperName(id *ast.Ident) bool {
+	fobj, ok := pr.p.Info.Uses[id].(*types.Func)
+	if !ok || fobj.Pkg() != pr.p.Types {
+		return false
+	}
+	fd := pr.p.Decl(fobj.Name())
+	if fd == nil || fd.Body == nil || fd.Recv != nil {
+		return false
+	}
+	_, _, ok = pr.pureBody(fd.Body.List)
+	return ok
+}
+
+// pureFn is a package function whose body is one return of one expression.
+type pureFn struct {
+	params  []types.Object
+	prelude []*ast.AssignStmt // `t := e` definitions of fresh locals before the return
+	ret     ast.Expr
+}
+
+// pureBody: the statements are zero or more `t := e` (one fresh variable each) followed by one `return <expr>`.
+func (pr *prover) pureBody(list []ast.Stmt) ([]*ast.AssignStmt, ast.Expr, bool) {
+	var prelude []*ast.AssignStmt
+	for i, st := range list {
+		if i == len(list)-1 {
+			ret, ok := st.(*ast.ReturnStmt)
+			if !ok || len(ret.Results) != 1 {
+				return nil, nil, false
+			}
+			return prelude, ret.Results[0], true
+		}
+		a, ok := st.(*ast.AssignStmt)
+		if !ok || a.Tok != token.DEFINE || len(a.Lhs) != 1 || len(a.Rhs) != 1 {
+			return nil, nil, false
+		}
+		if id, isID := a.Lhs[0].(*ast.Ident); !isID || pr.p.Info.Defs[id] == nil {
+			return nil, nil, false
+		}
+		prelude = append(prelude, a)
+	}
+	return nil, nil, false
+}
+
+// pureStep: call is a call of a package-level function (no receiver) whose body is exactly `return <expr>`, whose parameters are
+// unsigned integers, and whose expression refers only to its parameters, the table, constants and type names.
+func (pr *prover) pureStep(call *ast.CallExpr) *pureFn {
+	id, ok := unparen(call.Fun).(*ast.Ident)
+	if !ok {
+		return nil
+	}
+	fobj, ok := pr.p.Info.Uses[id].(*types.Func)
+	if !ok || fobj.Pkg() != pr.p.Types {
+		return nil
+	}
+	fd := pr.p.Decl(fobj.Name())
+	if fd == nil || fd.Body == nil || fd.Recv != nil {
+		return nil
+	}
+	prelude, retExpr, ok := pr.pureBody(fd.Body.List)
+	if !ok {
+		return nil
+	}
+	sig := fobj.Type().(*types.Signature)
+	if sig.Variadic() || sig.Params().Len() != len(call.Args) || sig.Results().Len() != 1 {
+		return nil
+	}
+	out := &pureFn{ret: retExpr, prelude: prelude}
+	allowed := map[types.Object]bool{}
+	for _, d := range prelude {
+		allowed[pr.p.Info.Defs[d.Lhs[0].(*ast.Ident)]] = true
+	}
+	for i := 0; i < sig.Params().Len(); i++ {
+		out.params = append(out.params, sig.Params().At(i))
+		allowed[sig.Params().At(i)] = true
+	}
+	good := true
+	var exprs []ast.Expr
+	for _, d := range prelude {
+		exprs = append(exprs, d.Rhs[0])
+	}
+	exprs = append(exprs, retExpr)
+	for _, ex := range exprs {
+		ast.Inspect(ex, func(n ast.Node) bool {
+			switch x := n.(type) {
+			case *ast.FuncLit:
+				good = false
+			case *ast.Ident:
+				switch o := pr.p.Info.Uses[x].(type) {
+				case *types.Var:
+					if !allowed[o] && o != types.Object(pr.tableObj) {
+						good = false
+					}
+				case *types.TypeName, *types.Const, nil:
+				case *types.Func:
+					// nested helpers are judged when evaluated
+				default:
+					good = false
+				}
+			}
+			return true
+		})
+	}
+	if !good {
+		return nil
+	}
+	return out
 }
 
 func uwidth(t types.Type) (int, bool) {
@@ -587,6 +697,37 @@ func (it *interp) eval0(e ast.Expr, w int) (bitdom.Vec, error) {
 				return nil, err
 			}
 			return a.Resize(w), nil
+		}
+		// a pure helper of the package: `func step(c uint32, b byte) uint32 { return <expr over its parameters, the table, constants> }`
+		if fn := it.pr.pureStep(x); fn != nil && it.depth < 3 {
+			sub := &interp{pr: it.pr, table: it.table, vars: map[types.Object]bitdom.Vec{}, depth: it.depth + 1}
+			okArgs := true
+			for i, prm := range fn.params {
+				av, err := it.eval(x.Args[i])
+				if err != nil {
+					return nil, err
+				}
+				pw, isU := uwidth(prm.Type())
+				if !isU {
+					okArgs = false
+					break
+				}
+				sub.vars[prm] = av.Resize(pw)
+			}
+			if okArgs {
+				for _, d := range fn.prelude {
+					dv, err := sub.eval(d.Rhs[0])
+					if err != nil {
+						return nil, err
+					}
+					sub.vars[it.pr.p.Info.Defs[d.Lhs[0].(*ast.Ident)]] = dv
+				}
+				v, err := sub.eval(fn.ret)
+				if err != nil {
+					return nil, err
+				}
+				return v.Resize(w), nil
+			}
 		}
 		// binary.BigEndian.UintN(bs) on an interpreted byte slice: byte k at bits 8(n-1-k)+7 .. 8(n-1-k)
 		if sel, ok := x.Fun.(*ast.SelectorExpr); ok && len(x.Args) == 1 {
@@ -789,6 +930,10 @@ func (pr *prover) foldStmts(sh *foldShape, name string, acc, slice types.Object,
 						return true // conversions
 					case *types.Const:
 						return true // a named constant has a fixed value known to go/types
+					case *types.Func:
+						if pr.isPureHelperName(x) {
+							return true // judged by F3 when the step is evaluated
+						}
 					}
 					offending = append(offending, x.Name)
 				}
@@ -915,6 +1060,10 @@ func (pr *prover) f4Index(sh *foldShape, loop *ast.ForStmt, ret *ast.ReturnStmt,
 					}
 				case *types.TypeName, *types.Const:
 					return true
+				case *types.Func:
+					if pr.isPureHelperName(x) {
+						return true
+					}
 				}
 				if o != nil {
 					offending = append(offending, x.Name)
